@@ -33,13 +33,17 @@ Section Api.
   (* ----- SearchParams (L1: the parameter list lives in the URL record) ----- *)
   Definition pair := (str * str)%type.
 
+  (* SearchParams.toScalarValueString: invalid UTF-8 reads as U+FFFD unless the parser accepts invalid code points *)
+  Definition sp_scalar (s : str) : str :=
+    if c_acceptInvalid c || valid_utf8 s then s else to_valid s.
+
   Definition sp_init (query : str) : list pair :=
     flat_map (fun q =>
       match q with
       | [] => []
       | _ => let '(k, v) := cut 61 q in
-             [(DecodePercentEncoded c (plus_to_space k),
-               match v with Some v => DecodePercentEncoded c (plus_to_space v) | None => [] end)]
+             [(sp_scalar (DecodePercentEncoded c (plus_to_space k)),
+               match v with Some v => sp_scalar (DecodePercentEncoded c (plus_to_space v)) | None => [] end)]
       end) (split 38 query).
 
   Definition QueryEscape (s : str) : str :=
